@@ -304,7 +304,7 @@ def descriptor_window_pairs(trace):
     """Directed two-preemption schedules for 2 threads: thread 0 is preempted at one of its descriptor-closing calls, thread 1 runs up to a
     point at which it owns a descriptor (between one of its descriptor-creating calls and the matching close) and hands back -- the
     schedules under which a stray or repeated close() in one thread hits a descriptor of the other."""
-    pts = [(trace[i], trace[i + 1]) for i in range(0, len(trace) - 1, 2) if trace[i + 1] not in "sxLb"]
+    pts = [(trace[i], trace[i + 1]) for i in range(0, len(trace) - 1, 2) if trace[i + 1] not in "sxb"]
     t0 = [k for t, k in pts if t == "0"]
     t1 = [k for t, k in pts if t == "1"]
     closes = [i + 1 for i, k in enumerate(t0) if k == "C"]
@@ -317,6 +317,29 @@ def descriptor_window_pairs(trace):
         if k == "C" and depth > 0:
             depth -= 1
     return [[(a, 1), (a + j, 0)] for a in closes for j in owning]
+
+
+def lock_window_triples(trace):
+    """Directed three-preemption schedules for 2 threads: thread 0 gets past its first critical section and is preempted; thread 1 runs up
+    to one of ITS lock acquisitions and is preempted there; thread 0 carries on to a point where it holds a lock of the library and hands
+    back -- thread 1 then meets a lock that is really taken (the only way to reach code that behaves differently under contention:
+    trylock fall-backs, timed locks, 'skip if busy' shortcuts)."""
+    pts = [(trace[i], trace[i + 1]) for i in range(0, len(trace) - 1, 2) if trace[i + 1] not in "sxb"]
+    t0 = [k for t, k in pts if t == "0"]
+    t1 = [k for t, k in pts if t == "1"]
+    first_u = next((i + 1 for i, k in enumerate(t0) if k == "u"), None)
+    if first_u is None:
+        return []
+    starts = [first_u] + ([len(t0) // 2] if len(t0) // 2 > first_u else [])
+    before_lock = [j for j, k in enumerate(t1) if k == "l" and j > 0]
+    holding = [i + 1 for i, k in enumerate(t0) if k == "L"]
+    out = []
+    for i1 in starts:
+        for j2 in before_lock:
+            for i3 in holding:
+                if i3 > i1:
+                    out.append([(i1, 1), (i1 + j2, 0), (i3 + j2, 1)])
+    return out
 
 
 def stress(ctx, builds, rounds, nthreads):
@@ -473,6 +496,10 @@ def main():
             ts = [[]] + (singles if shape in ((2, 1),) else rng.sample(singles, min(len(singles), 40 if ctx.quick else 400)))
         if not ctx.quick and shape == (2, 1):
             ts += rng.sample(pairs, 1500)
+        if shape == (2, 1):
+            triples = lock_window_triples(steps_of.trace)
+            ctx.extra["directed_lock_window_triples_2x1"] = len(triples)
+            ts += triples
         for sc in ts:
             jobs.append(("ts-tsan", shape, sc))
     rng.shuffle(jobs)
@@ -485,7 +512,9 @@ def main():
             if f["key"] not in seenkeys and len(ctx.violations) < 4:
                 seenkeys.add(f["key"])
                 ctx.violation(f["case"], f["observed"], f["expected"], f["what"])
-    # (b) stress under ThreadSanitizer
+    # (b) stress under ThreadSanitizer   (VERIF_C09_ONLY=sched, a debugging aid, leaves the free-running parts out)
+    if os.environ.get("VERIF_C09_ONLY") == "sched":
+        ctx.finish()
     v = stress(ctx, builds, 4 if ctx.quick else 32, 16 if ctx.quick else 64)
     if v and len(ctx.violations) < 5:
         ctx.violation({"stress": True}, v["observed"], None, v["what"])
